@@ -138,7 +138,12 @@ pub fn gen_case(r: &mut Rng, out: &mut String) {
                     its.insert(pos, format!("err:{}", r.range(10, 19)));
                 }
             }
-            writeln!(out, "tmulti {} {} t2 {}", op, kind, its.join(" ")).unwrap();
+            if r.chance(1, 3) {
+                let hint = *r.pick(&["lower0", "unknown", "exact"]);
+                writeln!(out, "tmultih {} {} {} t2 {}", hint, op, kind, its.join(" ")).unwrap();
+            } else {
+                writeln!(out, "tmulti {} {} t2 {}", op, kind, its.join(" ")).unwrap();
+            }
             writeln!(out, "tdump t2").unwrap();
         }
     }
